@@ -5,12 +5,13 @@ import SlVerif.Model.Buffered
 
   Contents
   * vocabulary used in the statements of C17: `wf`, `msgsOf`, `consumedBy`, `delivered`,
-    `droppedBy`, `droppedRun`, `asksOf`
+    `droppedBy`, `droppedRun`, `sinkWait`, `feedOk`, `asksBy`, `asksRun`, `asksOf`
   * `swapRemove`: permutation of erasing index `i`
   * `findIdx`: first matching index
   * `pull`: fuel-free description of the pull loop, `pullLoop_eq_pull` (fuel sufficiency)
+  * `sinkWait`: what a future suspended on the sink (`poll_ready` of the feed, `poll_flush`) does
   * `Pulled`: what a (possibly multi-poll, possibly cancelled) pull phase does to the state
-  * `runRecv` in terms of `runWaitFor`
+  * `runWaitFor` from each phase; `runRecv` in terms of `sinkWait`, `startSend` and `runWaitFor`
   * per-call conservation
 -/
 namespace SlVerif.Buffered
@@ -53,7 +54,37 @@ def droppedRun (s : State) : List Call → List Bytes
   | [] => []
   | c :: cs => droppedBy s c ++ droppedRun (call s c).1 cs
 
-/-- the ASK frames a sequence of calls feeds into the sink: one per `recv` polled at least once -/
+/-- `k` polls of a future that is suspended on the sink (`poll_ready` of the feed in `recv`,
+    `poll_flush` of the flush in `wait_for`), each poll asking the sink once:
+    * how the wait ends: `ok` the sink answered `Ready(Ok)`, `err` it answered `Ready(Err)`,
+      `pending` all `k` polls were answered `Pending` (the future is dropped while suspended there),
+    * the sink script left,
+    * the number of polls left, INCLUDING the poll in which the sink answered (that poll goes on). -/
+def sinkWait : Nat → List SinkEv → SinkEv × List SinkEv × Nat
+  | 0, l => (.pending, l, 0)
+  | k+1, [] => (.ok, [], k+1)
+  | k+1, .ok :: r => (.ok, r, k+1)
+  | k+1, .err :: r => (.err, r, k+1)
+  | k+1, .pending :: r => sinkWait k r
+
+/-- within `k` polls the feed of `recv` got `Ready(Ok)` from `poll_ready` and `Ok` from `start_send`:
+    the ASK was accepted by the sink and `recv` went on to `wait_for` -/
+def feedOk (k : Nat) (sink : List SinkEv) (sends : List Bool) : Bool :=
+  match sinkWait k sink with
+  | (.ok, _, _) => sends.head?.getD true
+  | _ => false
+
+/-- the ASK frames one call gets accepted by the sink -/
+def asksBy (s : State) : Call → List (Id × Nat)
+  | .recv id ttl k => if feedOk k s.sink s.sends then [(id, ttl)] else []
+  | _ => []
+
+/-- ... and a sequence of calls -/
+def asksRun (s : State) : List Call → List (Id × Nat)
+  | [] => []
+  | c :: cs => asksBy s c ++ asksRun (call s c).1 cs
+
+/-- with a sink that is always ready and never fails: one ASK per `recv` polled at least once -/
 def asksOf : List Call → List (Id × Nat)
   | [] => []
   | .recv id ttl (_+1) :: cs => (id, ttl) :: asksOf cs
@@ -263,7 +294,7 @@ theorem pullLoop_eq_pull (pred : Id → Bool) (fuel : Nat) (s : State)
   induction fuel generalizing s with
   | zero => omega
   | succ f ih =>
-    obtain ⟨buf, script, asks⟩ := s
+    obtain ⟨buf, script, asks, sink, sends⟩ := s
     cases script with
     | nil => simp [pullLoop, pollUnder, pull]
     | cons e rest =>
@@ -357,18 +388,159 @@ theorem pull_spec (pred : Id → Bool) (script : List Ev) (buf : List Bytes) :
             · exact h3 e he
           · rw [h4]; simp [msgsOf, hw]
 
+
+/-! ## the sink side -/
+
+theorem sinkWait_pending {k : Nat} {l r : List SinkEv} {j : Nat}
+    (h : sinkWait k l = (.pending, r, j)) : j = 0 ∧ l = List.replicate k .pending ++ r := by
+  induction k generalizing l with
+  | zero => simp only [sinkWait, Prod.mk.injEq] at h; simp [h.2.1, h.2.2]
+  | succ k ih =>
+    cases l with
+    | nil => simp [sinkWait] at h
+    | cons e t =>
+      cases e with
+      | ok => simp [sinkWait] at h
+      | err => simp [sinkWait] at h
+      | pending =>
+        obtain ⟨h1, h2⟩ := ih (l := t) (by simpa [sinkWait] using h)
+        exact ⟨h1, by rw [h2]; simp [List.replicate_succ]⟩
+
+theorem sinkWait_err {k : Nat} {l r : List SinkEv} {j : Nat}
+    (h : sinkWait k l = (.err, r, j)) :
+    ∃ p, p < k ∧ j = k - p ∧ l = List.replicate p .pending ++ .err :: r := by
+  induction k generalizing l with
+  | zero => simp [sinkWait] at h
+  | succ k ih =>
+    cases l with
+    | nil => simp [sinkWait] at h
+    | cons e t =>
+      cases e with
+      | ok => simp [sinkWait] at h
+      | err =>
+        simp only [sinkWait, Prod.mk.injEq, true_and] at h
+        exact ⟨0, by omega, by omega, by simp [h.1]⟩
+      | pending =>
+        obtain ⟨p, h1, h2, h3⟩ := ih (l := t) (by simpa [sinkWait] using h)
+        exact ⟨p + 1, by omega, by omega, by rw [h3]; simp [List.replicate_succ]⟩
+
+theorem sinkWait_ok {k : Nat} {l r : List SinkEv} {j : Nat}
+    (h : sinkWait k l = (.ok, r, j)) :
+    ∃ p, p < k ∧ j = k - p ∧
+      (l = List.replicate p .pending ++ .ok :: r ∨ (l = List.replicate p .pending ∧ r = [])) := by
+  induction k generalizing l with
+  | zero => simp [sinkWait] at h
+  | succ k ih =>
+    cases l with
+    | nil =>
+      simp only [sinkWait, Prod.mk.injEq, true_and] at h
+      exact ⟨0, by omega, by omega, Or.inr ⟨by simp, h.1.symm⟩⟩
+    | cons e t =>
+      cases e with
+      | ok =>
+        simp only [sinkWait, Prod.mk.injEq, true_and] at h
+        exact ⟨0, by omega, by omega, Or.inl (by simp [h.1])⟩
+      | err => simp [sinkWait] at h
+      | pending =>
+        obtain ⟨p, h1, h2, h3⟩ := ih (l := t) (by simpa [sinkWait] using h)
+        refine ⟨p + 1, by omega, by omega, ?_⟩
+        rcases h3 with h3 | ⟨h3, h4⟩
+        · exact Or.inl (by rw [h3]; simp [List.replicate_succ])
+        · exact Or.inr ⟨by rw [h3]; simp [List.replicate_succ], h4⟩
+
+/-- the sink script left is a suffix of the sink script -/
+theorem sinkWait_suffix (k : Nat) (l : List SinkEv) : ∃ c, l = c ++ (sinkWait k l).2.1 := by
+  induction k generalizing l with
+  | zero => exact ⟨[], rfl⟩
+  | succ k ih =>
+    cases l with
+    | nil => exact ⟨[], rfl⟩
+    | cons e t =>
+      cases e with
+      | ok => exact ⟨[.ok], rfl⟩
+      | err => exact ⟨[.err], rfl⟩
+      | pending =>
+        obtain ⟨c, hc⟩ := ih t
+        exact ⟨.pending :: c, by simp only [sinkWait, List.cons_append]; rw [← hc]⟩
+
+theorem sinkWait_polls_le (k : Nat) (l : List SinkEv) : (sinkWait k l).2.2 ≤ k := by
+  induction k generalizing l with
+  | zero => simp [sinkWait]
+  | succ k ih =>
+    cases l with
+    | nil => simp [sinkWait]
+    | cons e t =>
+      cases e with
+      | ok => simp [sinkWait]
+      | err => simp [sinkWait]
+      | pending => have := ih t; simp only [sinkWait]; omega
+
+/-- polling on after a wait that was still pending = waiting on with the sink script left -/
+theorem sinkWait_add_pending {k : Nat} {l r : List SinkEv} {i : Nat} (j : Nat)
+    (h : sinkWait k l = (.pending, r, i)) : sinkWait (k + j) l = sinkWait j r := by
+  induction k generalizing l with
+  | zero => simp only [sinkWait, Prod.mk.injEq, true_and] at h; simp [h.1]
+  | succ k ih =>
+    have e : k + 1 + j = (k + j) + 1 := by omega
+    cases l with
+    | nil => simp [sinkWait] at h
+    | cons e' t =>
+      cases e' with
+      | ok => simp [sinkWait] at h
+      | err => simp [sinkWait] at h
+      | pending =>
+        rw [e]
+        simp only [sinkWait] at h ⊢
+        exact ih h
+
+/-- extra polls after the sink has answered are simply left over -/
+theorem sinkWait_add_done {k : Nat} {l r : List SinkEv} {e : SinkEv} {i : Nat} (j : Nat)
+    (he : e ≠ .pending) (h : sinkWait k l = (e, r, i)) : sinkWait (k + j) l = (e, r, i + j) := by
+  induction k generalizing l with
+  | zero => simp only [sinkWait, Prod.mk.injEq] at h; exact absurd h.1.symm he
+  | succ k ih =>
+    have e1 : k + 1 + j = (k + j) + 1 := by omega
+    cases l with
+    | nil =>
+      rw [e1]
+      simp only [sinkWait, Prod.mk.injEq] at h ⊢
+      exact ⟨h.1, h.2.1, by omega⟩
+    | cons e' t =>
+      cases e' with
+      | ok =>
+        rw [e1]
+        simp only [sinkWait, Prod.mk.injEq] at h ⊢
+        exact ⟨h.1, h.2.1, by omega⟩
+      | err =>
+        rw [e1]
+        simp only [sinkWait, Prod.mk.injEq] at h ⊢
+        exact ⟨h.1, h.2.1, by omega⟩
+      | pending =>
+        rw [e1]
+        simp only [sinkWait] at h ⊢
+        exact ih h
+
+theorem replicate_ok_ne {p k : Nat} {r r' : List SinkEv} (h : p < k) :
+    List.replicate p SinkEv.pending ++ SinkEv.ok :: r ≠ List.replicate k SinkEv.pending ++ r' := by
+  intro hc
+  have := congrArg (fun l => l[p]?) hc
+  rw [List.getElem?_append_right (by simp), List.getElem?_append_left (by simpa using h)] at this
+  simp [h] at this
+
+theorem sinkWait_nil_succ (k : Nat) : sinkWait (k + 1) [] = (.ok, [], k + 1) := rfl
+
 /-! ## what a pull phase does -/
 
 /-- `Pulled pred s s' o`: starting in `s`, the wrapper consumed the script segment `c0 ++ tailOf o`;
     no frame of `c0` matches; the well-formed ones were appended to the buffer in arrival order
     (the malformed ones dropped); the terminating event is the matching frame / the end of stream /
-    nothing (still pending); nothing else changed. -/
+    nothing (still pending); nothing else changed (the sink is not touched). -/
 def Pulled (pred : Id → Bool) (s s' : State) (o : Outcome) : Prop :=
   ∃ c0, s.script = c0 ++ tailOf o ++ s'.script ∧
     (∀ x ∈ msgsOf c0, matches_ pred x = false) ∧
     (∀ e ∈ c0, e ≠ Ev.closed) ∧
     s'.buf = s.buf ++ (msgsOf c0).filter wf ∧
-    s'.asks = s.asks ∧
+    (s'.asks = s.asks ∧ s'.sink = s.sink ∧ s'.sends = s.sends) ∧
     (∀ m, o = .got m → matches_ pred m = true)
 
 theorem Pulled.refl (pred : Id → Bool) (s : State) : Pulled pred s s .cancelled :=
@@ -376,9 +548,9 @@ theorem Pulled.refl (pred : Id → Bool) (s : State) : Pulled pred s s .cancelle
 
 theorem Pulled.trans {pred : Id → Bool} {s s₁ s₂ : State} {o : Outcome}
     (h₁ : Pulled pred s s₁ .cancelled) (h₂ : Pulled pred s₁ s₂ o) : Pulled pred s s₂ o := by
-  obtain ⟨c, a1, a2, a3, a4, a5, _⟩ := h₁
-  obtain ⟨d, b1, b2, b3, b4, b5, b6⟩ := h₂
-  refine ⟨c ++ d, ?_, ?_, ?_, ?_, by rw [b5, a5], b6⟩
+  obtain ⟨c, a1, a2, a3, a4, ⟨a5, a6, a7⟩, _⟩ := h₁
+  obtain ⟨d, b1, b2, b3, b4, ⟨b5, b6, b7⟩, b8⟩ := h₂
+  refine ⟨c ++ d, ?_, ?_, ?_, ?_, ⟨by rw [b5, a5], by rw [b6, a6], by rw [b7, a7]⟩, b8⟩
   · rw [a1, b1]; simp [tailOf]
   · intro x hx
     rw [msgsOf_append, List.mem_append] at hx
@@ -397,7 +569,7 @@ theorem pullLoop_pulled (pred : Id → Bool) (s : State) :
       (toOutcome (pullLoop pred (s.script.length + 1) s).2) := by
   rw [pullLoop_eq_pull pred _ s (by omega)]
   obtain ⟨c0, h1, h2, h3, h4, h5⟩ := pull_spec pred s.script s.buf
-  exact ⟨c0, h1, h2, h3, h4, rfl, h5⟩
+  exact ⟨c0, h1, h2, h3, h4, ⟨rfl, rfl, rfl⟩, h5⟩
 
 /-- the pull loop reads only `buf` and `script`: the recorded asks ride along -/
 theorem pullLoop_asks (pred : Id → Bool) (s : State) (a : List (Id × Nat)) :
@@ -408,6 +580,9 @@ theorem pullLoop_asks (pred : Id → Bool) (s : State) (a : List (Id × Nat)) :
   rw [pullLoop_eq_pull pred _ { s with asks := a } (by simp)]
 
 /-! ## `runWaitFor` -/
+
+theorem runWaitFor_zero (pred : Id → Bool) (ph : Phase) (s : State) :
+    runWaitFor pred 0 ph s = (s, .cancelled) := rfl
 
 theorem runWaitFor_pulling_succ (pred : Id → Bool) (k : Nat) (s : State) :
     runWaitFor pred (k + 1) .pulling s =
@@ -433,10 +608,52 @@ theorem runWaitFor_pulling_pulled (pred : Id → Bool) (k : Nat) (s : State) :
     · rw [hr] at hp; exact hp
     · rw [hr] at hp; exact hp.trans (ih _)
 
-/-- no buffered frame matches: the first poll goes straight to the pull loop -/
+/-- the flush phase: the future asks the sink once per poll until it answers; `Pending` all along =
+    dropped while suspended in the flush, `Err` = `None`, `Ok` = on to the pull loop IN THE SAME POLL -/
+theorem runWaitFor_flushing (pred : Id → Bool) (k : Nat) (s : State) :
+    runWaitFor pred k .flushing s =
+      match sinkWait k s.sink with
+      | (.pending, r, _) => ({ s with sink := r }, .cancelled)
+      | (.err, r, _) => ({ s with sink := r }, .none_)
+      | (.ok, r, j) => runWaitFor pred j .pulling { s with sink := r } := by
+  induction k generalizing s with
+  | zero => rfl
+  | succ k ih =>
+    obtain ⟨buf, script, asks, sink, sends⟩ := s
+    cases sink with
+    | nil =>
+      simp only [sinkWait]
+      rw [runWaitFor, runWaitFor]
+      simp only [pollWaitFor, pollFlush, pollSink]
+    | cons e t =>
+      cases e with
+      | ok =>
+        simp only [sinkWait]
+        rw [runWaitFor, runWaitFor]
+        simp only [pollWaitFor, pollFlush, pollSink]
+      | err =>
+        simp only [sinkWait]
+        rw [runWaitFor]
+        simp only [pollWaitFor, pollFlush, pollSink]
+      | pending =>
+        simp only [sinkWait]
+        rw [runWaitFor]
+        simp only [pollWaitFor, pollFlush, pollSink]
+        exact ih _
+
+theorem runWaitFor_flushing_nil (pred : Id → Bool) (k : Nat) (s : State) (h : s.sink = []) :
+    runWaitFor pred k .flushing s = runWaitFor pred k .pulling s := by
+  obtain ⟨buf, script, asks, sink, sends⟩ := s
+  simp only at h
+  subst h
+  cases k with
+  | zero => rfl
+  | succ k => rw [runWaitFor_flushing]; rfl
+
+/-- no buffered frame matches: the first poll goes straight to the flush -/
 theorem runWaitFor_start_miss (pred : Id → Bool) (k : Nat) (s : State)
     (h : ∀ x ∈ s.buf, matches_ pred x = false) :
-    runWaitFor pred k .start s = runWaitFor pred k .pulling s := by
+    runWaitFor pred k .start s = runWaitFor pred k .flushing s := by
   cases k with
   | zero => rfl
   | succ k =>
@@ -445,115 +662,21 @@ theorem runWaitFor_start_miss (pred : Id → Bool) (k : Nat) (s : State)
     simp only [pollWaitFor, hf]
 
 /-- a buffered frame matches: the first poll returns the first such frame via `swap_remove` and
-    touches nothing else -/
+    touches nothing else, in particular not the sink -/
 theorem runWaitFor_start_hit (pred : Id → Bool) (k : Nat) (s : State) (i : Nat)
     (hi : i < s.buf.length) (h : findIdx pred s.buf 0 = some i) :
     runWaitFor pred (k + 1) .start s = ({ s with buf := swapRemove s.buf i }, .got s.buf[i]) := by
   rw [runWaitFor]
   simp only [pollWaitFor, h, List.getElem?_eq_getElem hi]
 
-theorem runWaitFor_asks (pred : Id → Bool) (k : Nat) (s : State) (a : List (Id × Nat)) :
-    runWaitFor pred k .pulling { s with asks := a } =
-      ({ (runWaitFor pred k .pulling s).1 with asks := a }, (runWaitFor pred k .pulling s).2) := by
-  induction k generalizing s with
-  | zero => rfl
-  | succ k ih =>
-    rw [runWaitFor_pulling_succ, runWaitFor_pulling_succ]
-    have := pullLoop_asks pred s a
-    simp only at this
-    simp only [this]
-    rcases hr : (pullLoop pred (s.script.length + 1) s).2 with (_ | m) | _
-    · rfl
-    · rfl
-    · exact ih _
-
-/-- polling on after `k ≥ 1` pending polls = continuing in the `pulling` phase -/
-theorem runWaitFor_add (pred : Id → Bool) (k j : Nat) (ph : Phase) (s s' : State) (hk : 1 ≤ k)
-    (h : runWaitFor pred k ph s = (s', .cancelled)) :
-    runWaitFor pred (k + j) ph s = runWaitFor pred j .pulling s' := by
-  induction k generalizing ph s with
-  | zero => omega
-  | succ k ih =>
-    have e : k + 1 + j = (k + j) + 1 := by omega
-    rw [e, runWaitFor]
-    rw [runWaitFor] at h
-    rcases hp : pollWaitFor pred ph s with ⟨s₁, r⟩
-    rw [hp] at h
-    rcases r with (_ | m) | _
-    · simp at h
-    · simp at h
-    · simp only at h ⊢
-      cases k with
-      | zero =>
-        simp only [runWaitFor, Prod.mk.injEq, and_true] at h
-        subst h
-        simp
-      | succ k' => exact ih .pulling s₁ (by omega) h
-
-/-! ## `runRecv` in terms of `runWaitFor` -/
-
-theorem runRecv_waiting (id : Id) (ttl k : Nat) (p : Phase) (s : State) :
-    runRecv id ttl k (.waiting p) s = runWaitFor (fun x => x == id) k p s := by
-  induction k generalizing p s with
-  | zero => rfl
-  | succ k ih =>
-    rw [runRecv, runWaitFor]
-    simp only [pollRecv]
-    rcases hp : pollWaitFor (fun x => x == id) p s with ⟨s₁, r⟩
-    rcases r with (_ | m) | _
-    · rfl
-    · rfl
-    · exact ih _ _
-
-theorem runRecv_start (id : Id) (ttl k : Nat) (s : State) :
-    runRecv id ttl (k + 1) .start s =
-      runWaitFor (fun x => x == id) (k + 1) .start { s with asks := s.asks ++ [(id, ttl)] } := by
-  rw [runRecv, runWaitFor]
-  simp only [pollRecv]
-  rcases hp : pollWaitFor (fun x => x == id) .start { s with asks := s.asks ++ [(id, ttl)] }
-    with ⟨s₁, r⟩
-  rcases r with (_ | m) | _
-  · rfl
-  · rfl
-  · exact runRecv_waiting _ _ _ _ _
-
-/-! ## per-call conservation -/
-
-theorem count_filter_split (p : Bytes → Bool) (l : List Bytes) (a : Bytes) :
-    List.count a l = List.count a (l.filter p) + List.count a (l.filter (fun x => !p x)) := by
-  have := (List.filter_append_perm p l).count_eq a
-  rw [List.count_append] at this
-  omega
-
-/-- conservation across a pull phase -/
-theorem Pulled.conserve {pred : Id → Bool} {s s' : State} {o : Outcome} (h : Pulled pred s s' o) :
-    s.script = consumedBy s s' ++ s'.script ∧
-    (msgsOf (consumedBy s s') ++ s.buf).Perm
-      ((got? o).toList ++ (msgsOf (consumedBy s s')).filter (fun m => !wf m) ++ s'.buf) := by
-  obtain ⟨c0, h1, _, _, h4, _, h6⟩ := h
-  have hc : consumedBy s s' = c0 ++ tailOf o := consumedBy_eq h1
-  rw [hc]
-  refine ⟨h1, ?_⟩
-  rw [msgsOf_append, msgsOf_tailOf, h4]
-  have hg : (got? o).toList.filter (fun m => !wf m) = [] := by
-    cases o with
-    | got m => simp [got?, matches_wf (h6 m rfl)]
-    | none_ => rfl
-    | cancelled => rfl
-  rw [List.filter_append, hg, List.perm_iff_count]
-  intro a
-  have := count_filter_split wf (msgsOf c0) a
-  simp only [List.count_append, List.append_nil]
-  omega
-
 /-- what `k` polls of a fresh `wait_for(pred)` future do: either nothing at all (`k = 0`), or the
-    buffered-first case, or a pull phase with no buffered match -/
+    buffered-first case, or (no buffered match) the flush followed by the pull phase -/
 theorem runWaitFor_start_cases (pred : Id → Bool) (k : Nat) (s : State) :
     (k = 0 ∧ runWaitFor pred k .start s = (s, .cancelled)) ∨
     (1 ≤ k ∧ ∃ i, ∃ hi : i < s.buf.length, findIdx pred s.buf 0 = some i ∧
         runWaitFor pred k .start s = ({ s with buf := swapRemove s.buf i }, .got s.buf[i])) ∨
     (1 ≤ k ∧ (∀ x ∈ s.buf, matches_ pred x = false) ∧
-        runWaitFor pred k .start s = runWaitFor pred k .pulling s) := by
+        runWaitFor pred k .start s = runWaitFor pred k .flushing s) := by
   cases k with
   | zero => exact Or.inl ⟨rfl, rfl⟩
   | succ k =>
@@ -566,24 +689,408 @@ theorem runWaitFor_start_cases (pred : Id → Bool) (k : Nat) (s : State) :
       obtain ⟨hi, _, _⟩ := findIdx_zero_some.mp hf
       exact Or.inl ⟨by omega, i, hi, rfl, runWaitFor_start_hit pred k s i hi hf⟩
 
-theorem runWaitFor_start_conserve (pred : Id → Bool) (k : Nat) (s : State) :
-    s.script = consumedBy s (runWaitFor pred k .start s).1 ++ (runWaitFor pred k .start s).1.script ∧
-    (msgsOf (consumedBy s (runWaitFor pred k .start s).1) ++ s.buf).Perm
-      ((got? (runWaitFor pred k .start s).2).toList ++
-        (msgsOf (consumedBy s (runWaitFor pred k .start s).1)).filter (fun m => !wf m) ++
-        (runWaitFor pred k .start s).1.buf) ∧
-    (runWaitFor pred k .start s).1.asks = s.asks := by
-  rcases runWaitFor_start_cases pred k s with ⟨_, h⟩ | ⟨_, i, hi, _, h⟩ | ⟨_, _, h⟩
-  · rw [h]; simp [consumedBy_self, got?, msgsOf]
-  · rw [h]
-    have hc : consumedBy s { s with buf := swapRemove s.buf i } = [] := consumedBy_eq (c := []) rfl
-    simp only [hc, got?, msgsOf]
-    refine ⟨by simp, ?_, by simp⟩
+/-- what `k` polls of a `wait_for` future suspended in the flush do -/
+theorem runWaitFor_flushing_cases (pred : Id → Bool) (k : Nat) (s : State) :
+    (∃ r, s.sink = List.replicate k .pending ++ r ∧
+        runWaitFor pred k .flushing s = ({ s with sink := r }, .cancelled)) ∨
+    (∃ p r, p < k ∧ s.sink = List.replicate p .pending ++ .err :: r ∧
+        runWaitFor pred k .flushing s = ({ s with sink := r }, .none_)) ∨
+    (∃ p r, p < k ∧
+        (s.sink = List.replicate p .pending ++ .ok :: r ∨ (s.sink = List.replicate p .pending ∧ r = [])) ∧
+        runWaitFor pred k .flushing s = runWaitFor pred (k - p) .pulling { s with sink := r }) := by
+  rw [runWaitFor_flushing]
+  rcases hw : sinkWait k s.sink with ⟨e, r, j⟩
+  cases e with
+  | pending => exact Or.inl ⟨r, (sinkWait_pending hw).2, rfl⟩
+  | err =>
+    obtain ⟨p, h1, _, h3⟩ := sinkWait_err hw
+    exact Or.inr (Or.inl ⟨p, r, h1, h3, rfl⟩)
+  | ok =>
+    obtain ⟨p, h1, h2, h3⟩ := sinkWait_ok hw
+    exact Or.inr (Or.inr ⟨p, r, h1, h3, by rw [h2]⟩)
+
+/-! ### the parts of the state `wait_for` does not read ride along -/
+
+theorem pollWaitFor_asks (pred : Id → Bool) (ph : Phase) (s : State) (a : List (Id × Nat)) :
+    pollWaitFor pred ph { s with asks := a } =
+      ({ (pollWaitFor pred ph s).1 with asks := a }, (pollWaitFor pred ph s).2) := by
+  have hfl : pollFlush pred { s with asks := a } =
+      ({ (pollFlush pred s).1 with asks := a }, (pollFlush pred s).2) := by
+    obtain ⟨buf, script, asks, sink, sends⟩ := s
+    cases sink with
+    | nil =>
+      simp only [pollFlush, pollSink]
+      have := pullLoop_asks pred ⟨buf, script, asks, [], sends⟩ a
+      simp only at this
+      rw [this]
+    | cons e t =>
+      cases e with
+      | ok =>
+        simp only [pollFlush, pollSink]
+        have := pullLoop_asks pred ⟨buf, script, asks, t, sends⟩ a
+        simp only at this
+        rw [this]
+      | err => rfl
+      | pending => rfl
+  cases ph with
+  | start =>
+    simp only [pollWaitFor]
+    cases hf : findIdx pred s.buf 0 with
+    | some i => rfl
+    | none => exact hfl
+  | flushing => exact hfl
+  | pulling =>
+    simp only [pollWaitFor]
+    have := pullLoop_asks pred s a
+    simp only at this
+    rw [this]
+
+theorem runWaitFor_asks (pred : Id → Bool) (k : Nat) (ph : Phase) (s : State) (a : List (Id × Nat)) :
+    runWaitFor pred k ph { s with asks := a } =
+      ({ (runWaitFor pred k ph s).1 with asks := a }, (runWaitFor pred k ph s).2) := by
+  induction k generalizing ph s with
+  | zero => rfl
+  | succ k ih =>
+    rw [runWaitFor, runWaitFor, pollWaitFor_asks]
+    rcases hp : pollWaitFor pred ph s with ⟨s₁, r, p⟩
+    rcases r with (_ | m) | _
+    · rfl
+    · rfl
+    · exact ih _ _
+
+/-- `wait_for` never touches the recorded asks nor the `start_send` script -/
+theorem pollWaitFor_asks_sends (pred : Id → Bool) (ph : Phase) (s : State) :
+    (pollWaitFor pred ph s).1.asks = s.asks ∧ (pollWaitFor pred ph s).1.sends = s.sends := by
+  have hpl : ∀ s : State, (pullLoop pred (s.script.length + 1) s).1.asks = s.asks ∧
+      (pullLoop pred (s.script.length + 1) s).1.sends = s.sends := by
+    intro s
+    rw [pullLoop_eq_pull pred _ s (by omega)]
+    exact ⟨rfl, rfl⟩
+  have hfl : (pollFlush pred s).1.asks = s.asks ∧ (pollFlush pred s).1.sends = s.sends := by
+    obtain ⟨buf, script, asks, sink, sends⟩ := s
+    cases sink with
+    | nil => simp only [pollFlush, pollSink]; exact hpl _
+    | cons e t =>
+      cases e with
+      | ok => simp only [pollFlush, pollSink]; exact hpl _
+      | err => exact ⟨rfl, rfl⟩
+      | pending => exact ⟨rfl, rfl⟩
+  cases ph with
+  | start =>
+    simp only [pollWaitFor]
+    cases hf : findIdx pred s.buf 0 with
+    | some i => exact ⟨rfl, rfl⟩
+    | none => exact hfl
+  | flushing => exact hfl
+  | pulling => simp only [pollWaitFor]; exact hpl s
+
+theorem runWaitFor_asks_sends (pred : Id → Bool) (k : Nat) (ph : Phase) (s : State) :
+    (runWaitFor pred k ph s).1.asks = s.asks ∧ (runWaitFor pred k ph s).1.sends = s.sends := by
+  induction k generalizing ph s with
+  | zero => exact ⟨rfl, rfl⟩
+  | succ k ih =>
+    rw [runWaitFor]
+    have h := pollWaitFor_asks_sends pred ph s
+    rcases hp : pollWaitFor pred ph s with ⟨s₁, r, p⟩
+    rw [hp] at h
+    rcases r with (_ | m) | _
+    · exact h
+    · exact h
+    · have := ih p s₁
+      exact ⟨this.1.trans h.1, this.2.trans h.2⟩
+
+/-! ### polling on -/
+
+/-- polling on in the pull phase -/
+theorem runWaitFor_pulling_add (pred : Id → Bool) (k j : Nat) (s s' : State)
+    (h : runWaitFor pred k .pulling s = (s', .cancelled)) :
+    runWaitFor pred (k + j) .pulling s = runWaitFor pred j .pulling s' := by
+  induction k generalizing s with
+  | zero =>
+    simp only [runWaitFor_zero, Prod.mk.injEq, and_true] at h
+    subst h
+    simp
+  | succ k ih =>
+    have e : k + 1 + j = (k + j) + 1 := by omega
+    rw [e, runWaitFor_pulling_succ]
+    rw [runWaitFor_pulling_succ] at h
+    rcases hr : (pullLoop pred (s.script.length + 1) s).2 with (_ | m) | _
+    · rw [hr] at h; simp at h
+    · rw [hr] at h; simp at h
+    · rw [hr] at h
+      exact ih _ h
+
+/-- polling on in the flush phase: the continuation is in the flush phase when all `k` polls were
+    answered `Pending` by the sink, otherwise in the pull phase -/
+theorem runWaitFor_flushing_add (pred : Id → Bool) (k j : Nat) (s s' : State)
+    (h : runWaitFor pred k .flushing s = (s', .cancelled)) :
+    (s.sink = List.replicate k .pending ++ s'.sink ∧ s' = { s with sink := s'.sink } ∧
+      runWaitFor pred (k + j) .flushing s = runWaitFor pred j .flushing s') ∨
+    (s.sink ≠ List.replicate k .pending ++ s'.sink ∧
+      runWaitFor pred (k + j) .flushing s = runWaitFor pred j .pulling s') := by
+  rw [runWaitFor_flushing] at h
+  rw [runWaitFor_flushing pred (k + j)]
+  rcases hw : sinkWait k s.sink with ⟨e, r, i⟩
+  rw [hw] at h
+  cases e with
+  | pending =>
+    simp only [Prod.mk.injEq, and_true] at h
+    subst h
+    left
+    refine ⟨(sinkWait_pending hw).2, rfl, ?_⟩
+    rw [sinkWait_add_pending j hw, runWaitFor_flushing]
+  | err => simp at h
+  | ok =>
+    right
+    simp only at h
+    rw [sinkWait_add_done j (by simp) hw]
+    simp only
+    obtain ⟨p, hp1, hp2, hp3⟩ := sinkWait_ok hw
+    have hsink : s'.sink = r := by
+      have := (runWaitFor_pulling_pulled pred i { s with sink := r })
+      rw [h] at this
+      obtain ⟨_, _, _, _, _, ⟨_, h6, _⟩, _⟩ := this
+      exact h6
+    refine ⟨?_, runWaitFor_pulling_add pred i j _ s' h⟩
+    rw [hsink]
+    intro hcontra
+    rcases hp3 with hp3 | ⟨hp3, hr⟩
+    · rw [hp3] at hcontra
+      exact replicate_ok_ne hp1 hcontra
+    · rw [hp3, hr] at hcontra
+      have hlen := congrArg List.length hcontra
+      simp at hlen
+      omega
+
+/-! ## `runRecv` in terms of the sink wait, `start_send` and `runWaitFor` -/
+
+theorem runRecv_zero (id : Id) (ttl : Nat) (ph : RPhase) (s : State) :
+    runRecv id ttl 0 ph s = (s, .cancelled) := rfl
+
+theorem runRecv_waiting (id : Id) (ttl k : Nat) (p : Phase) (s : State) :
+    runRecv id ttl k (.waiting p) s = runWaitFor (fun x => x == id) k p s := by
+  induction k generalizing p s with
+  | zero => rfl
+  | succ k ih =>
+    rw [runRecv, runWaitFor]
+    simp only [pollRecv]
+    rcases hp : pollWaitFor (fun x => x == id) p s with ⟨s₁, r, p'⟩
+    rcases r with (_ | m) | _
+    · rfl
+    · rfl
+    · exact ih _ _
+
+theorem startSend_cases (a : Id × Nat) (s : State) :
+    (s.sends.head?.getD true = true ∧
+      startSend a s = ({ s with sends := s.sends.tail, asks := s.asks ++ [a] }, true)) ∨
+    (s.sends.head? = some false ∧ startSend a s = ({ s with sends := s.sends.tail }, false)) := by
+  obtain ⟨buf, script, asks, sink, sends⟩ := s
+  cases sends with
+  | nil => exact Or.inl ⟨rfl, rfl⟩
+  | cons b t =>
+    cases b with
+    | true => exact Or.inl ⟨rfl, rfl⟩
+    | false => exact Or.inr ⟨rfl, rfl⟩
+
+/-- the feed of `recv`: `poll_ready` once per poll until the sink answers; then `start_send`; then,
+    IN THE SAME POLL, the first poll of `wait_for` -/
+theorem runRecv_feeding (id : Id) (ttl k : Nat) (s : State) :
+    runRecv id ttl k .feeding s =
+      match sinkWait k s.sink with
+      | (.pending, r, _) => ({ s with sink := r }, .cancelled)
+      | (.err, r, _) => ({ s with sink := r }, .none_)
+      | (.ok, r, j) =>
+          match startSend (id, ttl) { s with sink := r } with
+          | (s₂, false) => (s₂, .none_)
+          | (s₂, true) => runWaitFor (fun x => x == id) j .start s₂ := by
+  induction k generalizing s with
+  | zero => rfl
+  | succ k ih =>
+    obtain ⟨buf, script, asks, sink, sends⟩ := s
+    cases sink with
+    | nil =>
+      simp only [sinkWait]
+      rw [runRecv]
+      simp only [pollRecv, pollSink]
+      rcases startSend_cases (id, ttl) ⟨buf, script, asks, [], sends⟩ with ⟨_, e⟩ | ⟨_, e⟩
+      · simp only [e]
+        rw [runWaitFor]
+        rcases hp : pollWaitFor (fun x => x == id) .start
+          { buf := buf, script := script, asks := asks ++ [(id, ttl)], sink := [], sends := sends.tail }
+          with ⟨s₃, r, p⟩
+        rcases r with (_ | m) | _
+        · rfl
+        · rfl
+        · exact runRecv_waiting _ _ _ _ _
+      · simp only [e]
+    | cons e t =>
+      cases e with
+      | ok =>
+        simp only [sinkWait]
+        rw [runRecv]
+        simp only [pollRecv, pollSink]
+        rcases startSend_cases (id, ttl) ⟨buf, script, asks, t, sends⟩ with ⟨_, e⟩ | ⟨_, e⟩
+        · simp only [e]
+          rw [runWaitFor]
+          rcases hp : pollWaitFor (fun x => x == id) .start
+            { buf := buf, script := script, asks := asks ++ [(id, ttl)], sink := t, sends := sends.tail }
+            with ⟨s₃, r, p⟩
+          rcases r with (_ | m) | _
+          · rfl
+          · rfl
+          · exact runRecv_waiting _ _ _ _ _
+        · simp only [e]
+      | err =>
+        simp only [sinkWait]
+        rw [runRecv]
+        simp only [pollRecv, pollSink]
+      | pending =>
+        simp only [sinkWait]
+        rw [runRecv]
+        simp only [pollRecv, pollSink]
+        exact ih _
+
+/-- what `k` polls of a fresh `recv(id, ttl)` future do, by what the sink answers -/
+theorem runRecv_feeding_cases (id : Id) (ttl k : Nat) (s : State) :
+    (∃ r, s.sink = List.replicate k .pending ++ r ∧ feedOk k s.sink s.sends = false ∧
+        runRecv id ttl k .feeding s = ({ s with sink := r }, .cancelled)) ∨
+    (∃ p r, p < k ∧ s.sink = List.replicate p .pending ++ .err :: r ∧
+        feedOk k s.sink s.sends = false ∧
+        runRecv id ttl k .feeding s = ({ s with sink := r }, .none_)) ∨
+    (∃ p r, p < k ∧
+        (s.sink = List.replicate p .pending ++ .ok :: r ∨ (s.sink = List.replicate p .pending ∧ r = [])) ∧
+        ((s.sends.head? = some false ∧ feedOk k s.sink s.sends = false ∧
+            runRecv id ttl k .feeding s = ({ s with sink := r, sends := s.sends.tail }, .none_)) ∨
+         (s.sends.head?.getD true = true ∧ feedOk k s.sink s.sends = true ∧
+            runRecv id ttl k .feeding s =
+              runWaitFor (fun x => x == id) (k - p) .start
+                { s with sink := r, sends := s.sends.tail, asks := s.asks ++ [(id, ttl)] }))) := by
+  rw [runRecv_feeding]
+  unfold feedOk
+  rcases hw : sinkWait k s.sink with ⟨e, r, j⟩
+  cases e with
+  | pending => exact Or.inl ⟨r, (sinkWait_pending hw).2, rfl, rfl⟩
+  | err =>
+    obtain ⟨p, h1, _, h3⟩ := sinkWait_err hw
+    exact Or.inr (Or.inl ⟨p, r, h1, h3, rfl, rfl⟩)
+  | ok =>
+    obtain ⟨p, h1, h2, h3⟩ := sinkWait_ok hw
+    refine Or.inr (Or.inr ⟨p, r, h1, h3, ?_⟩)
+    rcases startSend_cases (id, ttl) { s with sink := r } with ⟨hh, e⟩ | ⟨hh, e⟩
+    · right
+      simp only at hh
+      refine ⟨hh, hh, ?_⟩
+      simp only [e, h2]
+    · left
+      simp only at hh
+      refine ⟨hh, by simp [hh], ?_⟩
+      simp only [e]
+
+/-! ## what every call does to the frames -/
+
+/-- the conservation statement for one step from `s` to `s'` with outcome `o` -/
+def Conserves (s s' : State) (o : Outcome) : Prop :=
+  s.script = consumedBy s s' ++ s'.script ∧
+  (msgsOf (consumedBy s s') ++ s.buf).Perm
+    ((got? o).toList ++ (msgsOf (consumedBy s s')).filter (fun m => !wf m) ++ s'.buf)
+
+/-- conservation, origin of the buffered frames, and the returned frame matches -/
+def Good (pred : Id → Bool) (s s' : State) (o : Outcome) : Prop :=
+  Conserves s s' o ∧ (∀ x ∈ s'.buf, x ∈ s.buf ∨ wf x = true) ∧
+    (∀ m, o = .got m → matches_ pred m = true)
+
+/-- `Good` looks only at the buffer and the script of the first state -/
+theorem Good.of_frames_eq {pred : Id → Bool} {s₁ s s' : State} {o : Outcome}
+    (hb : s₁.buf = s.buf) (hs : s₁.script = s.script) (h : Good pred s₁ s' o) : Good pred s s' o := by
+  unfold Good Conserves consumedBy at *
+  rw [hb, hs] at h
+  exact h
+
+/-- neither buffer nor script changed and no frame was returned -/
+theorem Good.stay {pred : Id → Bool} {s s' : State} {o : Outcome}
+    (hb : s'.buf = s.buf) (hs : s'.script = s.script) (ho : got? o = none) : Good pred s s' o := by
+  have hc : consumedBy s s' = [] := consumedBy_eq (c := []) (by simp [hs])
+  refine ⟨⟨by rw [hc, hs]; rfl, ?_⟩, ?_, ?_⟩
+  · rw [hc, ho, hb]; simp [msgsOf]
+  · intro x hx; rw [hb] at hx; exact Or.inl hx
+  · intro m hm; subst hm; simp [got?] at ho
+
+theorem count_filter_split (p : Bytes → Bool) (l : List Bytes) (a : Bytes) :
+    List.count a l = List.count a (l.filter p) + List.count a (l.filter (fun x => !p x)) := by
+  have := (List.filter_append_perm p l).count_eq a
+  rw [List.count_append] at this
+  omega
+
+/-- conservation across a pull phase -/
+theorem Pulled.good {pred : Id → Bool} {s s' : State} {o : Outcome} (h : Pulled pred s s' o) :
+    Good pred s s' o := by
+  obtain ⟨c0, h1, _, _, h4, _, h6⟩ := h
+  have hc : consumedBy s s' = c0 ++ tailOf o := consumedBy_eq h1
+  refine ⟨⟨by rw [hc]; exact h1, ?_⟩, ?_, h6⟩
+  · rw [hc, msgsOf_append, msgsOf_tailOf, h4]
+    have hg : (got? o).toList.filter (fun m => !wf m) = [] := by
+      cases o with
+      | got m => simp [got?, matches_wf (h6 m rfl)]
+      | none_ => rfl
+      | cancelled => rfl
+    rw [List.filter_append, hg, List.perm_iff_count]
+    intro a
+    have := count_filter_split wf (msgsOf c0) a
+    simp only [List.count_append, List.append_nil]
+    omega
+  · intro x hx
+    rw [h4, List.mem_append, List.mem_filter] at hx
+    rcases hx with hx | hx
+    · exact Or.inl hx
+    · exact Or.inr hx.2
+
+/-- the buffered-first case -/
+theorem good_hit (pred : Id → Bool) (s : State) (i : Nat) (hi : i < s.buf.length)
+    (hf : findIdx pred s.buf 0 = some i) :
+    Good pred s { s with buf := swapRemove s.buf i } (.got s.buf[i]) := by
+  have hc : consumedBy s { s with buf := swapRemove s.buf i } = [] := consumedBy_eq (c := []) rfl
+  refine ⟨⟨by rw [hc]; rfl, ?_⟩, ?_, ?_⟩
+  · simp only [hc, got?, msgsOf]
     simpa using (swapRemove_perm s.buf i hi).symm
-  · rw [h]
-    have hp := runWaitFor_pulling_pulled pred k s
-    obtain ⟨_, _, _, _, _, ha, _⟩ := id hp
-    exact ⟨hp.conserve.1, hp.conserve.2, ha⟩
+  · intro x hx; exact Or.inl (mem_of_mem_swapRemove hi hx)
+  · intro m hm
+    obtain ⟨_, hmm, _⟩ := findIdx_zero_some.mp hf
+    simp only [Outcome.got.injEq] at hm
+    rw [← hm]; exact hmm
+
+theorem runWaitFor_flushing_good (pred : Id → Bool) (k : Nat) (s : State) :
+    Good pred s (runWaitFor pred k .flushing s).1 (runWaitFor pred k .flushing s).2 := by
+  rcases runWaitFor_flushing_cases pred k s with ⟨r, _, e⟩ | ⟨p, r, _, _, e⟩ | ⟨p, r, _, _, e⟩
+  · rw [e]; exact Good.stay rfl rfl rfl
+  · rw [e]; exact Good.stay rfl rfl rfl
+  · rw [e]
+    exact Good.of_frames_eq (s₁ := { s with sink := r }) rfl rfl
+      (runWaitFor_pulling_pulled pred (k - p) { s with sink := r }).good
+
+/-- **what `k` polls of a `wait_for(pred)` future in any phase do to the frames** -/
+theorem runWaitFor_good (pred : Id → Bool) (k : Nat) (ph : Phase) (s : State) :
+    Good pred s (runWaitFor pred k ph s).1 (runWaitFor pred k ph s).2 := by
+  cases ph with
+  | start =>
+    rcases runWaitFor_start_cases pred k s with ⟨_, h⟩ | ⟨_, i, hi, hf, h⟩ | ⟨_, _, h⟩
+    · rw [h]; exact Good.stay rfl rfl rfl
+    · rw [h]; exact good_hit pred s i hi hf
+    · rw [h]; exact runWaitFor_flushing_good pred k s
+  | flushing => exact runWaitFor_flushing_good pred k s
+  | pulling => exact (runWaitFor_pulling_pulled pred k s).good
+
+/-- **what `k` polls of a fresh `recv(id, ttl)` future do to the frames** -/
+theorem runRecv_good (id : Id) (ttl k : Nat) (s : State) :
+    Good (fun x => x == id) s (runRecv id ttl k .feeding s).1 (runRecv id ttl k .feeding s).2 := by
+  rcases runRecv_feeding_cases id ttl k s with
+    ⟨r, _, _, e⟩ | ⟨p, r, _, _, _, e⟩ | ⟨p, r, _, _, ⟨_, _, e⟩ | ⟨_, _, e⟩⟩
+  · rw [e]; exact Good.stay rfl rfl rfl
+  · rw [e]; exact Good.stay rfl rfl rfl
+  · rw [e]; exact Good.stay rfl rfl rfl
+  · rw [e]
+    exact Good.of_frames_eq
+      (s₁ := { s with sink := r, sends := s.sends.tail, asks := s.asks ++ [(id, ttl)] }) rfl rfl
+      (runWaitFor_good _ _ _ _)
 
 theorem runCalls_cons (s : State) (c : Call) (cs : List Call) :
     runCalls s (c :: cs) =
@@ -600,27 +1107,16 @@ theorem call_conserve (s : State) (c : Call) :
     (msgsOf (consumedBy s (call s c).1) ++ s.buf).Perm
       ((got? (call s c).2).toList ++ droppedBy s c ++ (call s c).1.buf) := by
   cases c with
-  | waitFor ids k =>
-    have := runWaitFor_start_conserve (fun x => ids.contains x) k s
-    exact ⟨this.1, this.2.1⟩
-  | recv id ttl k =>
-    cases k with
-    | zero => simp [call, runRecv, droppedBy, consumedBy_self, got?, msgsOf]
-    | succ k =>
-      have h := runWaitFor_start_conserve (fun x => x == id) (k + 1)
-        { s with asks := s.asks ++ [(id, ttl)] }
-      have e : call s (.recv id ttl (k + 1)) =
-          runWaitFor (fun x => x == id) (k + 1) .start { s with asks := s.asks ++ [(id, ttl)] } :=
-        runRecv_start id ttl k s
-      simp only [droppedBy, e]
-      exact ⟨h.1, h.2.1⟩
+  | waitFor ids k => exact (runWaitFor_good (fun x => ids.contains x) k .start s).1
+  | recv id ttl k => exact (runRecv_good id ttl k s).1
   | next =>
-    obtain ⟨buf, script, asks⟩ := s
+    obtain ⟨buf, script, asks, sink, sends⟩ := s
     simp only [call, pollNext, droppedBy]
     cases hl : buf.getLast? with
     | some m =>
       obtain ⟨ys, rfl⟩ := List.getLast?_eq_some_iff.mp hl
-      have hc : consumedBy ⟨ys ++ [m], script, asks⟩ ⟨(ys ++ [m]).dropLast, script, asks⟩ = [] :=
+      have hc : consumedBy ⟨ys ++ [m], script, asks, sink, sends⟩
+          ⟨(ys ++ [m]).dropLast, script, asks, sink, sends⟩ = [] :=
         consumedBy_eq (c := []) rfl
       simp only [hc, got?, msgsOf]
       refine ⟨rfl, ?_⟩
@@ -631,71 +1127,41 @@ theorem call_conserve (s : State) (c : Call) :
       cases script with
       | nil => simp [pollUnder, consumedBy_self, got?, msgsOf]
       | cons e rest =>
-        have hc : consumedBy ⟨[], e :: rest, asks⟩ ⟨[], rest, asks⟩ = [e] :=
+        have hc : consumedBy ⟨[], e :: rest, asks, sink, sends⟩ ⟨[], rest, asks, sink, sends⟩ = [e] :=
           consumedBy_eq (c := [e]) rfl
         cases e <;> simp [pollUnder, hc, got?, msgsOf]
 
-/-- the recorded asks: `recv` polled at least once appends its ASK, nothing else touches them -/
-theorem call_asks (s : State) (c : Call) : (call s c).1.asks = s.asks ++ asksOf [c] := by
+/-- the accepted asks: a `recv` whose feed went through appends its ASK, nothing else touches them -/
+theorem call_asks (s : State) (c : Call) : (call s c).1.asks = s.asks ++ asksBy s c := by
   cases c with
   | waitFor ids k =>
-    have := (runWaitFor_start_conserve (fun x => ids.contains x) k s).2.2
-    simp only [call, asksOf, List.append_nil]
-    exact this
+    simp only [call, asksBy, List.append_nil]
+    exact (runWaitFor_asks_sends _ k .start s).1
   | recv id ttl k =>
-    cases k with
-    | zero => simp [call, runRecv, asksOf]
-    | succ k =>
-      have h := runWaitFor_start_conserve (fun x => x == id) (k + 1)
-        { s with asks := s.asks ++ [(id, ttl)] }
-      have e : call s (.recv id ttl (k + 1)) =
-          runWaitFor (fun x => x == id) (k + 1) .start { s with asks := s.asks ++ [(id, ttl)] } :=
-        runRecv_start id ttl k s
-      rw [e, h.2.2]
-      simp [asksOf]
+    simp only [call, asksBy]
+    rcases runRecv_feeding_cases id ttl k s with
+      ⟨r, _, hf, e⟩ | ⟨p, r, _, _, hf, e⟩ | ⟨p, r, _, _, ⟨_, hf, e⟩ | ⟨_, hf, e⟩⟩
+    · rw [e, hf]; simp
+    · rw [e, hf]; simp
+    · rw [e, hf]; simp
+    · rw [e, hf, (runWaitFor_asks_sends _ _ _ _).1]; simp
   | next =>
-    obtain ⟨buf, script, asks⟩ := s
-    simp only [call, pollNext, asksOf]
+    obtain ⟨buf, script, asks, sink, sends⟩ := s
+    simp only [call, pollNext, asksBy]
     cases hl : buf.getLast? with
     | some m => simp
     | none => cases script with
       | nil => simp [pollUnder]
       | cons e rest => cases e <;> simp [pollUnder]
 
-theorem asksOf_cons (c : Call) (cs : List Call) : asksOf (c :: cs) = asksOf [c] ++ asksOf cs := by
-  cases c with
-  | recv id ttl k => cases k <;> simp [asksOf]
-  | waitFor ids k => simp [asksOf]
-  | next => simp [asksOf]
-
 /-- the buffer only ever holds frames that were buffered before or are well-formed -/
 theorem call_buf_mem (s : State) (c : Call) :
     ∀ x ∈ (call s c).1.buf, x ∈ s.buf ∨ wf x = true := by
-  have hw : ∀ (pred : Id → Bool) (k : Nat) (s : State),
-      ∀ x ∈ (runWaitFor pred k .start s).1.buf, x ∈ s.buf ∨ wf x = true := by
-    intro pred k s x hx
-    rcases runWaitFor_start_cases pred k s with ⟨_, h⟩ | ⟨_, i, hi, _, h⟩ | ⟨_, _, h⟩
-    · rw [h] at hx; exact Or.inl hx
-    · rw [h] at hx; exact Or.inl (mem_of_mem_swapRemove hi hx)
-    · rw [h] at hx
-      obtain ⟨c0, _, _, _, h4, _, _⟩ := runWaitFor_pulling_pulled pred k s
-      rw [h4, List.mem_append, List.mem_filter] at hx
-      rcases hx with hx | hx
-      · exact Or.inl hx
-      · exact Or.inr hx.2
   cases c with
-  | waitFor ids k => exact hw _ k s
-  | recv id ttl k =>
-    cases k with
-    | zero => intro x hx; exact Or.inl hx
-    | succ k =>
-      have e : call s (.recv id ttl (k + 1)) =
-          runWaitFor (fun x => x == id) (k + 1) .start { s with asks := s.asks ++ [(id, ttl)] } :=
-        runRecv_start id ttl k s
-      rw [e]
-      exact hw _ _ _
+  | waitFor ids k => exact (runWaitFor_good (fun x => ids.contains x) k .start s).2.1
+  | recv id ttl k => exact (runRecv_good id ttl k s).2.1
   | next =>
-    obtain ⟨buf, script, asks⟩ := s
+    obtain ⟨buf, script, asks, sink, sends⟩ := s
     simp only [call, pollNext]
     cases hl : buf.getLast? with
     | some m => intro x hx; exact Or.inl (List.dropLast_subset _ hx)
@@ -706,44 +1172,85 @@ theorem call_buf_mem (s : State) (c : Call) :
       | nil => simp [pollUnder]
       | cons e rest => cases e <;> simp [pollUnder]
 
-/-! ## returned frames match; cancellation -/
+/-! ## returned frames match -/
 
-theorem runWaitFor_got_matches (pred : Id → Bool) (k : Nat) (s s' : State) (m : Bytes)
-    (h : runWaitFor pred k .start s = (s', .got m)) : matches_ pred m = true := by
-  rcases runWaitFor_start_cases pred k s with ⟨_, e⟩ | ⟨_, i, hi, hf, e⟩ | ⟨_, _, e⟩
-  · rw [e] at h; simp at h
-  · rw [e] at h
-    obtain ⟨_, hm, _⟩ := findIdx_zero_some.mp hf
-    simp only [Prod.mk.injEq, Outcome.got.injEq] at h
-    rw [← h.2]; exact hm
-  · have hp := runWaitFor_pulling_pulled pred k s
-    rw [← e, h] at hp
-    obtain ⟨_, _, _, _, _, _, h6⟩ := hp
-    exact h6 m rfl
+theorem runWaitFor_got_matches (pred : Id → Bool) (k : Nat) (ph : Phase) (s s' : State) (m : Bytes)
+    (h : runWaitFor pred k ph s = (s', .got m)) : matches_ pred m = true := by
+  have := (runWaitFor_good pred k ph s).2.2 m
+  rw [h] at this
+  exact this rfl
+
+theorem runRecv_got_matches (id : Id) (ttl k : Nat) (s s' : State) (m : Bytes)
+    (h : runRecv id ttl k .feeding s = (s', .got m)) : matches_ (fun x => x == id) m = true := by
+  have := (runRecv_good id ttl k s).2.2 m
+  rw [h] at this
+  exact this rfl
+
+/-! ## cancellation and reissue -/
 
 /-- a `wait_for` future dropped after `k ≥ 1` pending polls: no buffered frame matched, the
     consumed script prefix contains no matching frame and no end-of-stream, its well-formed
-    frames were appended to the buffer in arrival order, nothing else changed -/
+    frames were appended to the buffer in arrival order, the sink answered only `Pending`/`Ok`,
+    nothing else changed -/
 theorem runWaitFor_start_cancelled (pred : Id → Bool) (k : Nat) (s s' : State) (hk : 1 ≤ k)
     (h : runWaitFor pred k .start s = (s', .cancelled)) :
     (∀ x ∈ s.buf, matches_ pred x = false) ∧
-    ∃ c, s.script = c ++ s'.script ∧ (∀ x ∈ msgsOf c, matches_ pred x = false) ∧
-      (∀ e ∈ c, e ≠ Ev.closed) ∧ s'.buf = s.buf ++ (msgsOf c).filter wf ∧ s'.asks = s.asks := by
+    (∃ c, s.script = c ++ s'.script ∧ (∀ x ∈ msgsOf c, matches_ pred x = false) ∧
+      (∀ e ∈ c, e ≠ Ev.closed) ∧ s'.buf = s.buf ++ (msgsOf c).filter wf) ∧
+    s'.asks = s.asks ∧ s'.sends = s.sends ∧
+    (∃ d, s.sink = d ++ s'.sink ∧ ∀ e ∈ d, e ≠ SinkEv.err) := by
   rcases runWaitFor_start_cases pred k s with ⟨hk0, _⟩ | ⟨_, i, hi, hf, e⟩ | ⟨_, hb, e⟩
   · omega
   · rw [e] at h; simp at h
-  · have hp := runWaitFor_pulling_pulled pred k s
-    rw [← e, h] at hp
-    obtain ⟨c, h1, h2, h3, h4, h5, _⟩ := hp
-    exact ⟨hb, c, by simpa [tailOf] using h1, h2, h3, h4, h5⟩
+  · refine ⟨hb, ?_⟩
+    rw [e] at h
+    rcases runWaitFor_flushing_cases pred k s with ⟨r, hs, e'⟩ | ⟨p, r, _, _, e'⟩ | ⟨p, r, _, hs, e'⟩
+    · rw [e'] at h
+      simp only [Prod.mk.injEq, and_true] at h
+      subst h
+      refine ⟨⟨[], by simp [msgsOf]⟩, rfl, rfl, List.replicate k .pending, hs, ?_⟩
+      intro e he
+      rw [List.eq_of_mem_replicate he]
+      simp
+    · rw [e'] at h; simp at h
+    · rw [e'] at h
+      have hp := runWaitFor_pulling_pulled pred (k - p) { s with sink := r }
+      rw [h] at hp
+      obtain ⟨c, h1, h2, h3, h4, ⟨h5, h6, h7⟩, _⟩ := hp
+      refine ⟨⟨c, by simpa [tailOf] using h1, h2, h3, h4⟩, h5, h7, ?_⟩
+      simp only at h6
+      rw [h6]
+      rcases hs with hs | ⟨hs, hr⟩
+      · refine ⟨List.replicate p .pending ++ [.ok], by rw [hs]; simp, ?_⟩
+        intro e he
+        rw [List.mem_append] at he
+        rcases he with he | he
+        · rw [List.eq_of_mem_replicate he]; simp
+        · simp at he; rw [he]; simp
+      · refine ⟨List.replicate p .pending, by rw [hs, hr]; simp, ?_⟩
+        intro e he
+        rw [List.eq_of_mem_replicate he]; simp
 
-theorem runWaitFor_zero (pred : Id → Bool) (ph : Phase) (s : State) :
-    runWaitFor pred 0 ph s = (s, .cancelled) := rfl
-
-/-- reissuing a cancelled `wait_for`: the two futures together behave like one uninterrupted
-    future polled `k + j` times -/
-theorem runWaitFor_reissue (pred : Id → Bool) (k j : Nat) (s s' : State)
+/-- after a cancelled `wait_for` that was polled at least once, the scan of a reissued one finds
+    nothing: it goes straight to the flush -/
+theorem runWaitFor_reissue_scan (pred : Id → Bool) (k j : Nat) (s s' : State) (hk : 1 ≤ k)
     (h : runWaitFor pred k .start s = (s', .cancelled)) :
+    runWaitFor pred j .start s' = runWaitFor pred j .flushing s' := by
+  obtain ⟨hb, ⟨c, _, hc, _, hbuf⟩, _⟩ := runWaitFor_start_cancelled pred k s s' hk h
+  apply runWaitFor_start_miss
+  intro x hx
+  rw [hbuf, List.mem_append, List.mem_filter] at hx
+  rcases hx with hx | hx
+  · exact hb x hx
+  · exact hc x hx.1
+
+/-- reissuing a cancelled `wait_for`: when the sink has nothing but `Ready(Ok)` left at the
+    cancellation point, or when the future was dropped while suspended in the flush (all `k`
+    polls were answered `Pending` by the sink), the two futures together behave like one
+    uninterrupted future polled `k + j` times -/
+theorem runWaitFor_reissue (pred : Id → Bool) (k j : Nat) (s s' : State)
+    (h : runWaitFor pred k .start s = (s', .cancelled))
+    (hs : s'.sink = [] ∨ s.sink = List.replicate k .pending ++ s'.sink) :
     runWaitFor pred (k + j) .start s = runWaitFor pred j .start s' := by
   by_cases hk : k = 0
   · subst hk
@@ -751,24 +1258,239 @@ theorem runWaitFor_reissue (pred : Id → Bool) (k j : Nat) (s s' : State)
     subst h
     simp
   · have hk1 : 1 ≤ k := by omega
-    obtain ⟨hb, c, _, hc, _, hbuf, _⟩ := runWaitFor_start_cancelled pred k s s' hk1 h
-    rw [runWaitFor_add pred k j .start s s' hk1 h]
-    symm
-    apply runWaitFor_start_miss
-    intro x hx
-    rw [hbuf, List.mem_append, List.mem_filter] at hx
-    rcases hx with hx | hx
-    · exact hb x hx
-    · exact hc x hx.1
+    have hscan := runWaitFor_reissue_scan pred k j s s' hk1 h
+    obtain ⟨hb, _⟩ := runWaitFor_start_cancelled pred k s s' hk1 h
+    rw [runWaitFor_start_miss pred k s hb] at h
+    rw [runWaitFor_start_miss pred (k + j) s hb, hscan]
+    rcases runWaitFor_flushing_add pred k j s s' h with ⟨_, _, e⟩ | ⟨hne, e⟩
+    · exact e
+    · rw [e]
+      rcases hs with hs | hs
+      · exact (runWaitFor_flushing_nil pred j s' hs).symm
+      · exact absurd hs hne
 
-/-- `wait_for` reads only `buf` and `script` -/
-theorem runWaitFor_start_asks (pred : Id → Bool) (k : Nat) (s : State) (a : List (Id × Nat)) :
-    runWaitFor pred k .start { s with asks := a } =
-      ({ (runWaitFor pred k .start s).1 with asks := a }, (runWaitFor pred k .start s).2) := by
-  rcases runWaitFor_start_cases pred k s with ⟨hk, e⟩ | ⟨hk, i, hi, hf, e⟩ | ⟨_, hb, e⟩
-  · subst hk; rfl
-  · obtain ⟨k', rfl⟩ : ∃ k', k = k' + 1 := ⟨k - 1, by omega⟩
-    rw [e, runWaitFor_start_hit pred k' { s with asks := a } i hi hf]
-  · rw [e, runWaitFor_start_miss pred k { s with asks := a } hb, runWaitFor_asks]
+/-- the sink script left after a `wait_for` is a suffix of the sink script -/
+theorem runWaitFor_sink_suffix (pred : Id → Bool) (k : Nat) (ph : Phase) (s : State) :
+    ∃ d, s.sink = d ++ (runWaitFor pred k ph s).1.sink := by
+  have hpull : ∀ (k : Nat) (s : State), (runWaitFor pred k .pulling s).1.sink = s.sink := by
+    intro k s
+    obtain ⟨_, _, _, _, _, ⟨_, h6, _⟩, _⟩ := runWaitFor_pulling_pulled pred k s
+    exact h6
+  have hflush : ∀ (k : Nat) (s : State), ∃ d, s.sink = d ++ (runWaitFor pred k .flushing s).1.sink := by
+    intro k s
+    rcases runWaitFor_flushing_cases pred k s with ⟨r, hs, e⟩ | ⟨p, r, _, hs, e⟩ | ⟨p, r, _, hs, e⟩
+    · rw [e]; exact ⟨_, hs⟩
+    · rw [e]; exact ⟨List.replicate p .pending ++ [.err], by rw [hs]; simp⟩
+    · rw [e, hpull]
+      rcases hs with hs | ⟨hs, hr⟩
+      · exact ⟨List.replicate p .pending ++ [.ok], by rw [hs]; simp⟩
+      · exact ⟨List.replicate p .pending, by rw [hs, hr]; simp⟩
+  cases ph with
+  | start =>
+    rcases runWaitFor_start_cases pred k s with ⟨_, h⟩ | ⟨_, i, hi, hf, h⟩ | ⟨_, _, h⟩
+    · rw [h]; exact ⟨[], rfl⟩
+    · rw [h]; exact ⟨[], rfl⟩
+    · rw [h]; exact hflush k s
+  | flushing => exact hflush k s
+  | pulling => rw [hpull]; exact ⟨[], rfl⟩
+
+/-- a `wait_for` that returns `None`: either it met the end of the stream (everything read before
+    it is buffered or was malformed), or the flush failed and neither the buffer nor the script
+    was touched -/
+theorem runWaitFor_start_none (pred : Id → Bool) (k : Nat) (s s' : State)
+    (h : runWaitFor pred k .start s = (s', .none_)) :
+    (∃ c0, s.script = c0 ++ [Ev.closed] ++ s'.script ∧ s'.buf = s.buf ++ (msgsOf c0).filter wf) ∨
+    (s'.buf = s.buf ∧ s'.script = s.script ∧ ∃ d, s.sink = d ++ SinkEv.err :: s'.sink) := by
+  rcases runWaitFor_start_cases pred k s with ⟨_, e⟩ | ⟨_, i, hi, hf, e⟩ | ⟨_, hb, e⟩
+  · rw [e] at h; simp at h
+  · rw [e] at h; simp at h
+  · rw [e] at h
+    rcases runWaitFor_flushing_cases pred k s with ⟨r, hs, e'⟩ | ⟨p, r, _, hs, e'⟩ | ⟨p, r, _, hs, e'⟩
+    · rw [e'] at h; simp at h
+    · rw [e'] at h
+      simp only [Prod.mk.injEq, and_true] at h
+      subst h
+      exact Or.inr ⟨rfl, rfl, _, hs⟩
+    · rw [e'] at h
+      have hp := runWaitFor_pulling_pulled pred (k - p) { s with sink := r }
+      rw [h] at hp
+      obtain ⟨c, h1, _, _, h4, _, _⟩ := hp
+      exact Or.inl ⟨c, h1, h4⟩
+
+/-- sink script and `start_send` script only ever lose a prefix -/
+theorem call_sink_sends (s : State) (c : Call) :
+    (∃ d, s.sink = d ++ (call s c).1.sink) ∧ (∃ t, s.sends = t ++ (call s c).1.sends) := by
+  cases c with
+  | waitFor ids k =>
+    exact ⟨runWaitFor_sink_suffix _ k .start s, [], by
+      simp only [call, List.nil_append]; exact (runWaitFor_asks_sends _ k .start s).2.symm⟩
+  | recv id ttl k =>
+    simp only [call]
+    have tl : ∀ l : List Bool, ∃ t, l = t ++ l.tail := by
+      intro l; cases l with
+      | nil => exact ⟨[], rfl⟩
+      | cons b t => exact ⟨[b], rfl⟩
+    rcases runRecv_feeding_cases id ttl k s with
+      ⟨r, hs, _, e⟩ | ⟨p, r, _, hs, _, e⟩ | ⟨p, r, _, hs, ⟨_, _, e⟩ | ⟨_, _, e⟩⟩
+    · rw [e]; exact ⟨⟨_, hs⟩, [], rfl⟩
+    · rw [e]; exact ⟨⟨List.replicate p .pending ++ [.err], by rw [hs]; simp⟩, [], rfl⟩
+    · rw [e]
+      refine ⟨?_, tl s.sends⟩
+      rcases hs with hs | ⟨hs, hr⟩
+      · exact ⟨List.replicate p .pending ++ [.ok], by rw [hs]; simp⟩
+      · exact ⟨List.replicate p .pending, by rw [hs, hr]; simp⟩
+    · rw [e]
+      obtain ⟨d, hd⟩ := runWaitFor_sink_suffix (fun x => x == id) (k - p) .start
+        { s with sink := r, sends := s.sends.tail, asks := s.asks ++ [(id, ttl)] }
+      simp only at hd
+      refine ⟨?_, ?_⟩
+      · rcases hs with hs | ⟨hs, hr⟩
+        · refine ⟨List.replicate p .pending ++ [.ok] ++ d, ?_⟩
+          rw [hs]
+          simp only [List.append_assoc, List.cons_append, List.nil_append]
+          rw [← hd]
+        · subst hr
+          refine ⟨List.replicate p .pending ++ d, ?_⟩
+          rw [hs, List.append_assoc, ← hd]
+          simp
+      · rw [(runWaitFor_asks_sends _ _ _ _).2]
+        exact tl s.sends
+  | next =>
+    obtain ⟨buf, script, asks, sink, sends⟩ := s
+    simp only [call, pollNext]
+    cases hl : buf.getLast? with
+    | some m => exact ⟨⟨[], rfl⟩, [], rfl⟩
+    | none => cases script with
+      | nil => exact ⟨⟨[], rfl⟩, [], rfl⟩
+      | cons e rest => cases e <;> exact ⟨⟨[], rfl⟩, [], rfl⟩
+
+theorem asksOf_cons (c : Call) (cs : List Call) : asksOf (c :: cs) = asksOf [c] ++ asksOf cs := by
+  cases c with
+  | recv id ttl k => cases k <;> simp [asksOf]
+  | waitFor ids k => simp [asksOf]
+  | next => simp [asksOf]
+
+theorem feedOk_ready (k : Nat) : feedOk k [] [] = decide (1 ≤ k) := by
+  cases k <;> simp [feedOk, sinkWait]
+
+/-! ## forward computation from the shape of the sink script -/
+
+theorem sinkWait_replicate (p j : Nat) (l : List SinkEv) :
+    sinkWait (p + j) (List.replicate p .pending ++ l) = sinkWait j l := by
+  induction p with
+  | zero => simp
+  | succ p ih =>
+    have e : p + 1 + j = (p + j) + 1 := by omega
+    rw [e, List.replicate_succ]
+    simp only [List.cons_append, sinkWait]
+    exact ih
+
+theorem sinkWait_replicate_pending (k : Nat) (r : List SinkEv) :
+    sinkWait k (List.replicate k .pending ++ r) = (.pending, r, 0) := by
+  have := sinkWait_replicate k 0 r
+  simpa [sinkWait] using this
+
+theorem sinkWait_replicate_err {p k : Nat} (hp : p < k) (r : List SinkEv) :
+    sinkWait k (List.replicate p .pending ++ .err :: r) = (.err, r, k - p) := by
+  obtain ⟨j, rfl⟩ : ∃ j, k = p + (j + 1) := ⟨k - p - 1, by omega⟩
+  rw [sinkWait_replicate]
+  simp only [sinkWait]
+  congr 2; omega
+
+theorem sinkWait_replicate_ok {p k : Nat} (hp : p < k) (r : List SinkEv) :
+    sinkWait k (List.replicate p .pending ++ .ok :: r) = (.ok, r, k - p) := by
+  obtain ⟨j, rfl⟩ : ∃ j, k = p + (j + 1) := ⟨k - p - 1, by omega⟩
+  rw [sinkWait_replicate]
+  simp only [sinkWait]
+  congr 2; omega
+
+theorem sinkWait_replicate_nil {p k : Nat} (hp : p < k) :
+    sinkWait k (List.replicate p .pending) = (.ok, [], k - p) := by
+  obtain ⟨j, rfl⟩ : ∃ j, k = p + (j + 1) := ⟨k - p - 1, by omega⟩
+  have := sinkWait_replicate p (j + 1) []
+  rw [List.append_nil] at this
+  rw [this]
+  simp only [sinkWait]
+  congr 2; omega
+
+/-- the sink answers `Ready(Ok)` at the (p+1)-th call: literally, or because its script is exhausted -/
+def OkAfter (p : Nat) (sink r : List SinkEv) : Prop :=
+  sink = List.replicate p .pending ++ .ok :: r ∨ (sink = List.replicate p .pending ∧ r = [])
+
+theorem sinkWait_okAfter {p k : Nat} (hp : p < k) {sink r : List SinkEv} (h : OkAfter p sink r) :
+    sinkWait k sink = (.ok, r, k - p) := by
+  rcases h with h | ⟨h, hr⟩
+  · rw [h]; exact sinkWait_replicate_ok hp r
+  · rw [h, hr]; exact sinkWait_replicate_nil hp
+
+theorem runWaitFor_flushing_pending (pred : Id → Bool) (k : Nat) (s : State) (r : List SinkEv)
+    (hs : s.sink = List.replicate k .pending ++ r) :
+    runWaitFor pred k .flushing s = ({ s with sink := r }, .cancelled) := by
+  rw [runWaitFor_flushing, hs, sinkWait_replicate_pending]
+
+theorem runWaitFor_flushing_err (pred : Id → Bool) (k : Nat) (s : State) (p : Nat) (r : List SinkEv)
+    (hp : p < k) (hs : s.sink = List.replicate p .pending ++ .err :: r) :
+    runWaitFor pred k .flushing s = ({ s with sink := r }, .none_) := by
+  rw [runWaitFor_flushing, hs, sinkWait_replicate_err hp]
+
+theorem runWaitFor_flushing_ok (pred : Id → Bool) (k : Nat) (s : State) (p : Nat) (r : List SinkEv)
+    (hp : p < k) (hs : OkAfter p s.sink r) :
+    runWaitFor pred k .flushing s = runWaitFor pred (k - p) .pulling { s with sink := r } := by
+  rw [runWaitFor_flushing, sinkWait_okAfter hp hs]
+
+theorem runRecv_feed_pending (id : Id) (ttl k : Nat) (s : State) (r : List SinkEv)
+    (hs : s.sink = List.replicate k .pending ++ r) :
+    runRecv id ttl k .feeding s = ({ s with sink := r }, .cancelled) := by
+  rw [runRecv_feeding, hs, sinkWait_replicate_pending]
+
+theorem runRecv_feed_err (id : Id) (ttl k : Nat) (s : State) (p : Nat) (r : List SinkEv)
+    (hp : p < k) (hs : s.sink = List.replicate p .pending ++ .err :: r) :
+    runRecv id ttl k .feeding s = ({ s with sink := r }, .none_) := by
+  rw [runRecv_feeding, hs, sinkWait_replicate_err hp]
+
+theorem runRecv_feed_send_err (id : Id) (ttl k : Nat) (s : State) (p : Nat) (r : List SinkEv)
+    (hp : p < k) (hs : OkAfter p s.sink r) (t : List Bool) (hsend : s.sends = false :: t) :
+    runRecv id ttl k .feeding s = ({ s with sink := r, sends := t }, .none_) := by
+  rw [runRecv_feeding, sinkWait_okAfter hp hs]
+  simp only [startSend, hsend]
+
+theorem runRecv_feed_ok (id : Id) (ttl k : Nat) (s : State) (p : Nat) (r : List SinkEv)
+    (hp : p < k) (hs : OkAfter p s.sink r) (hsend : s.sends.head?.getD true = true) :
+    runRecv id ttl k .feeding s =
+      runWaitFor (fun x => x == id) (k - p) .start
+        { s with sink := r, sends := s.sends.tail, asks := s.asks ++ [(id, ttl)] } := by
+  rw [runRecv_feeding, sinkWait_okAfter hp hs]
+  rcases startSend_cases (id, ttl) { s with sink := r } with ⟨_, e⟩ | ⟨hh, _⟩
+  · simp only [e]
+  · simp only at hh
+    rw [hh] at hsend
+    simp at hsend
+
+theorem feedOk_of_okAfter {p k : Nat} (hp : p < k) {sink r : List SinkEv} (h : OkAfter p sink r)
+    (sends : List Bool) : feedOk k sink sends = sends.head?.getD true := by
+  unfold feedOk
+  rw [sinkWait_okAfter hp h]
+
+/-- a `recv` future dropped while still pending: either it was still suspended in the feed (the
+    ASK was not sent, nothing but the sink script changed) or its feed went through and it was
+    dropped inside `wait_for` -/
+theorem runRecv_cancelled (id : Id) (ttl k : Nat) (s s' : State)
+    (h : runRecv id ttl k .feeding s = (s', .cancelled)) :
+    (feedOk k s.sink s.sends = false ∧ s.sink = List.replicate k .pending ++ s'.sink ∧
+      s' = { s with sink := s'.sink }) ∨
+    (feedOk k s.sink s.sends = true ∧ ∃ p r, p < k ∧ OkAfter p s.sink r ∧
+      s.sends.head?.getD true = true ∧
+      runWaitFor (fun x => x == id) (k - p) .start
+        { s with sink := r, sends := s.sends.tail, asks := s.asks ++ [(id, ttl)] } = (s', .cancelled)) := by
+  rcases runRecv_feeding_cases id ttl k s with
+    ⟨r, hs, hf, e⟩ | ⟨p, r, _, _, _, e⟩ | ⟨p, r, hp, hs, ⟨_, _, e⟩ | ⟨hh, hf, e⟩⟩
+  · rw [e] at h
+    simp only [Prod.mk.injEq, and_true] at h
+    subst h
+    exact Or.inl ⟨hf, hs, rfl⟩
+  · rw [e] at h; simp at h
+  · rw [e] at h; simp at h
+  · rw [e] at h
+    exact Or.inr ⟨hf, p, r, hp, hs, hh, h⟩
 
 end SlVerif.Buffered
